@@ -332,10 +332,7 @@ func stringFunc(arg1 query) func(query, iterator) interface{} {
 // startwithFunc is a XPath functions starts-with(string, string).
 func startwithFunc(arg1, arg2 query) func(query, iterator) interface{} {
 	return func(_ query, t iterator) interface{} {
-		var (
-			m, n string
-			ok   bool
-		)
+		var m, n string
 		switch typ := functionArgs(arg1).Evaluate(t).(type) {
 		case string:
 			m = typ
@@ -347,8 +344,15 @@ func startwithFunc(arg1, arg2 query) func(query, iterator) interface{} {
 		default:
 			panic(errors.New("starts-with() function argument type must be string"))
 		}
-		n, ok = functionArgs(arg2).Evaluate(t).(string)
-		if !ok {
+		switch typ := functionArgs(arg2).Evaluate(t).(type) {
+		case string:
+			n = typ
+		case query:
+			// a node-set argument is converted to the string-value of its first node
+			if node := typ.Select(t); node != nil {
+				n = node.Value()
+			}
+		default:
 			panic(errors.New("starts-with() function argument type must be string"))
 		}
 		return strings.HasPrefix(m, n)
@@ -358,10 +362,7 @@ func startwithFunc(arg1, arg2 query) func(query, iterator) interface{} {
 // endwithFunc is a XPath functions ends-with(string, string).
 func endwithFunc(arg1, arg2 query) func(query, iterator) interface{} {
 	return func(_ query, t iterator) interface{} {
-		var (
-			m, n string
-			ok   bool
-		)
+		var m, n string
 		switch typ := functionArgs(arg1).Evaluate(t).(type) {
 		case string:
 			m = typ
@@ -373,8 +374,15 @@ func endwithFunc(arg1, arg2 query) func(query, iterator) interface{} {
 		default:
 			panic(errors.New("ends-with() function argument type must be string"))
 		}
-		n, ok = functionArgs(arg2).Evaluate(t).(string)
-		if !ok {
+		switch typ := functionArgs(arg2).Evaluate(t).(type) {
+		case string:
+			n = typ
+		case query:
+			// a node-set argument is converted to the string-value of its first node
+			if node := typ.Select(t); node != nil {
+				n = node.Value()
+			}
+		default:
 			panic(errors.New("ends-with() function argument type must be string"))
 		}
 		return strings.HasSuffix(m, n)
@@ -384,10 +392,7 @@ func endwithFunc(arg1, arg2 query) func(query, iterator) interface{} {
 // containsFunc is a XPath functions contains(string or @attr, string).
 func containsFunc(arg1, arg2 query) func(query, iterator) interface{} {
 	return func(_ query, t iterator) interface{} {
-		var (
-			m, n string
-			ok   bool
-		)
+		var m, n string
 		switch typ := functionArgs(arg1).Evaluate(t).(type) {
 		case string:
 			m = typ
@@ -400,8 +405,15 @@ func containsFunc(arg1, arg2 query) func(query, iterator) interface{} {
 			panic(errors.New("contains() function argument type must be string"))
 		}
 
-		n, ok = functionArgs(arg2).Evaluate(t).(string)
-		if !ok {
+		switch typ := functionArgs(arg2).Evaluate(t).(type) {
+		case string:
+			n = typ
+		case query:
+			// a node-set argument is converted to the string-value of its first node
+			if node := typ.Select(t); node != nil {
+				n = node.Value()
+			}
+		default:
 			panic(errors.New("contains() function argument type must be string"))
 		}
 
